@@ -21,6 +21,7 @@ def run(tier):
               "images for EVERY (w, h, alpha) in 1..64 x 1..64 (validated in full for small and sampled sizes, and whenever "
               "save does not return normally); "
               "distinct = (operation, format, alpha, width, width mod 4 / outcome)")
+    c.rule += " Every fourth prefix is also loaded by file name (both filename constructors) with the open descriptors counted."
     c.assumptions = ["zlib's uncompress is trusted to expose the PNG scanlines; CRCs, framing and IHDR are judged by the spec",
                      "pixel contents are sampled (random, ramp, extremes), not enumerated",
                      "dimensions above 64 are not driven"]
